@@ -7,6 +7,7 @@ import (
 	"runtime"
 	"sort"
 	"strings"
+	"sync/atomic"
 	"time"
 
 	"github.com/theparanoids/ysshra/agent/shimagent"
@@ -36,8 +37,12 @@ func parked() int {
 			cnt++
 		}
 	}
-	return cnt
+	return cnt - int(longParked.Load())
 }
+
+// longParked is the number of waiters of the long-park rig (below), which stay parked for the whole run on
+// servers of their own and are not part of any scenario's count.
+var longParked atomic.Int32
 
 type waiter struct {
 	code     byte
@@ -250,7 +255,10 @@ func run(r *ev.Run, c *ev.Case, sc scenario) {
 		return
 	}
 	var ws []*waiter
+	v0 := r.NumViolations()
+	violatedHere := false
 	defer func() {
+		violatedHere = r.NumViolations() > v0
 		// release everything that is still parked so that the next scenario starts clean
 		if g.wedged {
 			for _, w := range ws {
@@ -272,12 +280,37 @@ func run(r *ev.Run, c *ev.Case, sc scenario) {
 				g.poke(byte(code))
 			}
 		}
+		if g.wedged {
+			if !violatedHere {
+				r.Violation(c, "request-never-completes-while-clients-wait:release", fmt.Sprintf("a request sent to release the remaining waiters got no reply within the watchdog; %d goroutines parked", parked()), sc)
+			}
+			for _, w := range ws {
+				if w.conn != nil {
+					w.conn.Close()
+				}
+			}
+			return
+		}
+		// every code below 40 has now been named by at least one request after the last waiter registered
+		left := waitParked(0, 5*time.Second)
+		if left != 0 && !g.wedged && !violatedHere {
+			var codes []int
+			for _, w := range ws {
+				if !w.poll() && w.code < 40 {
+					codes = append(codes, int(w.code))
+				}
+			}
+			r.Violation(c, "waiter-survives-matching-requests", fmt.Sprintf("%d goroutines are still parked (waiters on codes %v) after requests with each of their codes and with every code 0..39 were answered", left, codes), sc)
+		}
 		for _, w := range ws {
 			if w.conn != nil {
 				w.conn.Close()
 			}
 		}
-		waitParked(0, 5*time.Second)
+		if left != 0 {
+			// a goroutine parked for good stays in the goroutine table: later scenarios could not be judged
+			wedgedOnce = true
+		}
 	}()
 	expectParked := 0
 	add := func(code int) bool {
@@ -469,6 +502,72 @@ func main() {
 	ev.MainIsolated("C20", "exploration", 60*time.Minute, func(r *ev.Run) {
 		r.Rule("scenarios on a real remote-mode yubiagent server (waiters are real clients calling Wait on their own connections served by ServeAgent; pokes are request frames whose first byte is the code, on fresh connections) and directly on (*shimagent.Server).Wait/Broadcast: every code 0..255 as wait code; 1..8 waiters on one code and spread over 2..4 codes; pokes of matching and non-matching codes (including codes >= 40 and codes congruent modulo 40) in seeded orders, all orders for up to 3 codes; late waiters registering between two pokes; a quarter of the scenarios lock the agent first (waiting does not depend on the lock state). The goroutine table is the monitor: after each poke's reply the number of goroutines parked in sync.Cond.Wait below (*Server).Wait must equal the number of waiters on other codes, the released waiters must all return success, no other waiter may return. Race-instrumented. distinct_nontrivial = distinct scenarios that ran to the end")
 		r.Assume("'eventually released' is bounded progress: the watchdog per step is VERIF_OP_TIMEOUT_S (60 s)", "a waiter is registered exactly when its goroutine is counted as parked (cond.Wait enqueues before releasing the lock that Broadcast takes)")
+		// long park: waiters that nobody addresses stay parked however long it takes. Three waiters (two through
+		// clients of a served agent, one directly) are parked now, on servers of their own, and looked at again when
+		// everything else is done (at least longHold later): none may have returned, and one matching request each
+		// then releases them.
+		longHold := time.Duration(r.Pick(7, 100)) * time.Second
+		longStart := time.Now()
+		var longWs []*waiter
+		var longRigs []*rig
+		if lc := r.Case("long-park", 0); lc != nil {
+			for _, spec := range []struct {
+				direct bool
+				code   byte
+			}{{false, 11}, {false, 35}, {true, 13}} {
+				g, err := newRig(spec.direct)
+				if err != nil {
+					continue
+				}
+				if w, err := g.startWaiter(spec.code); err == nil {
+					if n := waitParked(1, ev.OpTimeout()); n != 1 {
+						r.Violation(lc, "waiter-does-not-register:long-park", fmt.Sprintf("code %d: %d parked", spec.code, n), nil)
+					}
+					longRigs = append(longRigs, g)
+					longWs = append(longWs, w)
+					longParked.Add(1)
+				}
+			}
+			defer func() {
+				if wedgedOnce || r.NumViolations() > 0 {
+					return
+				}
+				if d := longHold - time.Since(longStart); d > 0 {
+					time.Sleep(d)
+				}
+				held := time.Since(longStart).Round(time.Second)
+				r.Eval(1)
+				for _, w := range longWs {
+					if w.poll() {
+						r.Violation(lc, "waiter-returns-without-matching-request:long-park", fmt.Sprintf("a waiter on code %d that no request addressed returned after at most %s (err=%v)", w.code, held, w.err), map[string]any{"code": w.code, "parked_for": held.String()})
+						return
+					}
+				}
+				n := int(longParked.Swap(0))
+				if got := parked(); got != n {
+					r.Violation(lc, "parked-count-drifts:long-park", fmt.Sprintf("%d goroutines parked after %s, expected the %d long-term waiters", got, held, n), nil)
+					return
+				}
+				for i, w := range longWs {
+					longRigs[i].poke(w.code)
+					select {
+					case e := <-w.done:
+						if e != nil {
+							r.Violation(lc, "released-waiter-reports-error:long-park", fmt.Sprintf("code %d after %s: %v", w.code, held, e), nil)
+							return
+						}
+					case <-time.After(ev.OpTimeout()):
+						r.Violation(lc, "waiter-not-released:long-park", fmt.Sprintf("code %d, parked for %s, not released by a request with its code", w.code, held), nil)
+						return
+					}
+				}
+				for _, g := range longRigs {
+					g.close()
+				}
+				r.Count(fmt.Sprintf("waiters parked for the whole run (>= %s) and then released by one request", longHold), len(longWs))
+				r.Nontrivial("long-park")
+			}()
+		}
 		idx := 0
 		one := func(fam string, sc scenario) {
 			c := r.Case(fam, idx)
